@@ -215,30 +215,48 @@ class Ctx:
         return chosen
 
     def decide(self, neg, timeout_ms=None):
-        """is pc ∧ neg satisfiable?  returns (verdict, model, how)"""
+        """is pc ∧ neg satisfiable?  returns (verdict, model, how).
+
+        Stages (each sound): 1-2 linear abstraction (products opaque; `unsat` there holds over the reals)
+        on the relevance slice and on the full path condition; 3 nonlinear solver on the slice (`unsat`
+        only); 4 nonlinear solver on the full path condition (`sat` with model, `unsat`, or `unknown`)."""
         timeout_ms = timeout_ms or self.qtimeout_ms
         neg = z3.simplify(neg)
         if z3.is_false(neg):
             return "unsat", None, "rewriter"
+        full = [e.expr for e in self.pc]
         sl = self._slice(neg)
-        if len(sl) < len(self.pc):
+        sliced = len(sl) < len(full)
+
+        def lin(cons):
+            s0 = z3.SimpleSolver()
+            s0.set("smt.arith.nl", False)
+            s0.set("timeout", min(timeout_ms, 3000))
+            s0.add(*cons)
+            s0.add(neg)
+            return self._check(s0)
+
+        if sliced and lin(sl) == "unsat":
+            return "unsat", None, "linear-slice"
+        if lin(full) == "unsat":
+            return "unsat", None, "linear"
+        if sliced:
             s = z3.Solver()
             s.set("timeout", timeout_ms)
             s.add(*sl)
             s.add(neg)
-            r = self._check(s)
-            if r == "unsat":
+            if self._check(s) == "unsat":
                 return "unsat", None, "slice"
         s = z3.Solver()
         s.set("timeout", timeout_ms)
-        s.add(*[e.expr for e in self.pc])
+        s.add(*full)
         s.add(neg)
         r = self._check(s)
         if r == "unknown":
             try:
                 s2 = z3.Tactic("qfnra-nlsat").solver()
                 s2.set("timeout", timeout_ms)
-                s2.add(*[e.expr for e in self.pc])
+                s2.add(*full)
                 s2.add(neg)
                 r2 = self._check(s2)
                 if r2 != "unknown":
@@ -636,7 +654,13 @@ class SR:
         if a is not None and b is not None:
             return {"lt": a < b, "le": a <= b, "gt": a > b, "ge": a >= b, "eq": a == b, "ne": a != b}[op]
         x, y = toz(self), toz(o)
-        e = {"lt": x < y, "le": x <= y, "gt": x > y, "ge": x >= y, "eq": x == y, "ne": x != y}[op]
+        # canonical atom: sum-of-monomials form of (x - y) compared with 0, so that syntactically
+        # different spellings of one polynomial meet as the same term in hypotheses and goals
+        d = z3.simplify(x - y, som=True)
+        if z3.is_rational_value(d):
+            c0 = F(d.numerator_as_long(), d.denominator_as_long())
+            return {"lt": c0 < 0, "le": c0 <= 0, "gt": c0 > 0, "ge": c0 >= 0, "eq": c0 == 0, "ne": c0 != 0}[op]
+        e = {"lt": d < 0, "le": d <= 0, "gt": d > 0, "ge": d >= 0, "eq": d == 0, "ne": d != 0}[op]
         e = z3.simplify(e)
         if z3.is_true(e):
             return True
@@ -1082,8 +1106,18 @@ def prove(name, cond, kind="post", margin=None):
                     rec["model"] = None
         c.obligations.append(rec)
         return rec["verdict"] == "unsat"
-    neg = z3.Not(tob(cond))
-    verdict, model, how = c.decide(neg)
+    e = z3.simplify(tob(cond))
+    parts = list(e.children()) if z3.is_and(e) else [e]
+    verdict, model, how = "unsat", None, "rewriter"
+    for part in parts:  # a conjunction is decided conjunct by conjunct (smaller queries)
+        v1, m1, h1 = c.decide(z3.Not(part))
+        if v1 == "sat":
+            verdict, model, how = v1, m1, h1
+            break
+        if v1 != "unsat":
+            verdict, how = v1, h1
+        elif verdict == "unsat":
+            how = h1 if how == "rewriter" else how
     rec.update(verdict=verdict, how=how)
     if verdict == "sat":
         best = model
